@@ -322,20 +322,24 @@ fn check_last_word(sim: &mut Sim, final_: bool) {
         if class == "other" && prop == "C07" {
             // words of another document's file dictionary that is stored under the same file name
             let my_path = file_dict_path(&settings, &doc.path);
-            let foreign: Vec<String> = sim
+            let mut foreign: Vec<(i64, String)> = sim
                 .oracle_state
                 .dict_model
                 .iter()
                 .filter(|(k, _)| k.starts_with("file|") && key_path(k) == my_path && !k.starts_with(&format!("file|{}|", doc.uri)))
-                .flat_map(|(_, ws)| ws.iter().map(|(w, _)| w.clone()))
+                .flat_map(|(_, ws)| ws.iter().map(|(w, id)| (*id, w.clone())))
                 .collect();
-            if !foreign.is_empty() {
+            foreign.sort();
+            // (the server re-lints only the file a command names: this file's diagnostics may date
+            // from any earlier moment, when only the first k of those words were in the shared file)
+            for k in (1..=foreign.len()).rev() {
                 let mut f2 = file.clone();
-                f2.extend(foreign);
+                f2.extend(foreign[..k].iter().map(|(_, w)| w.clone()));
                 let r = ref_diags(sim, &doc.text, &doc.lang, &settings, &user, &f2).unwrap_or_default();
                 if strip_ignorable(sim, doc, &r) == observed {
                     class = "file_dict_name_collision".into();
-                    why = format!("they are the diagnostics under this file's dictionary plus the words added to another file's dictionary, both of which are stored as {my_path}");
+                    why = format!("they are the diagnostics under this file's dictionary plus words added to another file's dictionary, both of which are stored as {my_path}");
+                    break;
                 }
             }
         }
